@@ -115,6 +115,32 @@ def _mk_watched(label):
     return make
 
 
+def _mk_method_args(label):
+    """Like _mk_watched, and additionally: the tensor arguments of the method must come back unchanged."""
+    def make(orig):
+        def fn(self, *a, **kw):
+            ctx = _CTX
+            if ctx is None:
+                return orig(self, *a, **kw)
+            stamps = arg_stamps(a, kw)
+            try:
+                return orig(self, *a, **kw)
+            finally:
+                who = type(self).__name__ + label
+                if stamps:
+                    ctx.seen("args.untouched")
+                    bad = changed_args(stamps)
+                    if bad:
+                        ctx.violation("args.untouched", "argument_mutated." + who, f"{who} modified its tensor argument(s) {bad}", sig=(who,), function=who)
+                    else:
+                        ctx.ok("args.untouched", sig=(who,))
+                _after(who)
+
+        return fn
+
+    return make
+
+
 def _mk_functional(name):
     def make(orig):
         def fn(*a, **kw):
@@ -152,13 +178,17 @@ def setup(ctx):
     for m in ("compute_hedge", "compute_pl", "compute_portfolio", "compute_loss", "price", "fit", "get_input"):
         contracts.wrap_method(Hedger, m, _mk_watched("Hedger." + m))
     for m in ("forward", "cash"):
-        contracts.wrap_method(HedgeLoss, m, _mk_watched("." + m))
+        contracts.wrap_method(HedgeLoss, m, _mk_method_args("." + m))
     for m in ("price", "delta", "gamma", "vega", "theta", "implied_volatility", "forward"):
         try:
-            contracts.wrap_method(BSModuleMixin, m, _mk_watched("." + m))
+            contracts.wrap_method(BSModuleMixin, m, _mk_method_args("." + m))
         except RuntimeError:
             pass
-    contracts.wrap_method(WhalleyWilmott, "forward", _mk_watched("WhalleyWilmott.forward"))
+    contracts.wrap_method(WhalleyWilmott, "forward", _mk_method_args(".forward"))
+    from pfhedge.nn import Clamp, LeakyClamp, SVIVariance
+
+    for cls_ in (Clamp, LeakyClamp, SVIVariance):
+        contracts.wrap_method(cls_, "forward", _mk_method_args(".forward"))
     for m in ("delta", "gamma", "vega", "theta", "gamma_from_delta"):
         contracts.wrap_function("pfhedge.autogreek", m, _mk_watched("autogreek." + m))
     fnames = [n for n, f in vars(F).items() if inspect.isfunction(f) and getattr(f, "__module__", "") == "pfhedge.nn.functional" and not n.startswith("_")]
@@ -305,6 +335,16 @@ def drv_functional(ctx, k, rng):
         else:
             getattr(F, "bs_american_binary_" + nm)(s, m, tt, v, 1.0)
         getattr(F, "bs_lookback_" + nm)(s.detach(), m, tt.detach(), v.detach(), 1.2)
+    from pfhedge.nn import Clamp, EntropicLoss, IsoelasticLoss, LeakyClamp, QuadraticCVaR
+
+    xin, tgt = mk((8, 3)), mk((8, 3))
+    for crit in (EntropicRiskMeasure(), ExpectedShortfall(0.3), EntropicLoss(), QuadraticCVaR(2.0)):
+        crit(xin, tgt)
+        crit.cash(xin, tgt)
+    pos = mk((8,), positive=True)
+    IsoelasticLoss(0.5)(pos + 1.0, pos.detach() * 0.5)
+    Clamp()(x, lo, hi)
+    LeakyClamp(0.1, inverted_output="max")(x, lo, hi)
     F.ww_width(mk((6,), positive=True), mk((6,), positive=True), 1e-3, 1.0)
     F.svi_variance(s, 0.04, 0.4, -0.4, 0.0, 0.1)
     F.bilerp(mk((6,)), mk((6,)), mk((6,)), mk((6,)), 0.3, mk((6,)))
